@@ -104,7 +104,7 @@ def encode_line(line):
         elif f[0] == "r":
             out += [1, int(f[1]), int(f[2])]
         elif f[0] == "m":
-            out += [2, int(f[1]), int(f[2]), int(f[3]), int(f[4]), int(f[5]), int(f[7]) % (1 << 64), int(f[8]), int(f[9])]
+            out += [2, int(f[1]), int(f[2]), int(f[3]), int(f[4]), int(f[5]), int(f[6]), int(f[7]) % (1 << 64), int(f[8]), int(f[9])]
         elif f[0] == "i":
             out += [3, int(f[1], 16)]
         elif f[0] == "l":
